@@ -1517,10 +1517,9 @@ func c11PurityStream(rng *rand.Rand, n int, tier string, out string) (*Summary, 
 				one(p, api, rng.Int63())
 			}
 		}
-		if tier == "thorough" {
-			// exhaustive small scope for the gNMI scalar decoder: every site kind list x every arm x tolerance
-			c11Exhaustive(func(p *reg.Pkg, site c11Site, tv *gpb.TypedValue, tol bool, tag string) { exh(p, site, tv, tol, tag) })
-		}
+		// exhaustive small scope for the gNMI scalar decoder: every site kind list x every arm x tolerance
+		// (quick tier: the first package, leaf-list payloads with two equal arms)
+		c11ExhaustiveScope(tier != "thorough", func(p *reg.Pkg, site c11Site, tv *gpb.TypedValue, tol bool, tag string) { exh(p, site, tv, tol, tag) })
 	}
 	files, err := cf.write(out, "purity", 400)
 	if err != nil {
@@ -1534,6 +1533,11 @@ func c11PurityStream(rng *rand.Rand, n int, tier string, out string) (*Summary, 
 // c11Exhaustive enumerates, for one site per distinct kind list of every package, every scalar
 // arm (and two-element leaf-lists) with and without tolerance.
 func c11Exhaustive(f func(p *reg.Pkg, site c11Site, tv *gpb.TypedValue, tol bool, tag string)) {
+	c11ExhaustiveScope(false, f)
+}
+
+// c11ExhaustiveScope: small = the first package only, leaf-lists with two equal arms.
+func c11ExhaustiveScope(small bool, f func(p *reg.Pkg, site c11Site, tv *gpb.TypedValue, tol bool, tag string)) {
 	mk := func(i int) *gpb.TypedValue {
 		switch i {
 		case 0:
@@ -1564,7 +1568,10 @@ func c11Exhaustive(f func(p *reg.Pkg, site c11Site, tv *gpb.TypedValue, tol bool
 		return &gpb.TypedValue{}
 	}
 	const arms = 13
-	for _, name := range reg.Names() {
+	for ni, name := range reg.Names() {
+		if small && ni > 0 {
+			break
+		}
 		p := reg.Get(name)
 		done := map[string]bool{}
 		for _, s := range c11SitesOf(p) {
@@ -1580,6 +1587,9 @@ func c11Exhaustive(f func(p *reg.Pkg, site c11Site, tv *gpb.TypedValue, tol bool
 						continue
 					}
 					for j := 0; j < arms; j++ {
+						if small && j != i {
+							continue
+						}
 						f(p, s, &gpb.TypedValue{Value: &gpb.TypedValue_LeaflistVal{LeaflistVal: &gpb.ScalarArray{Element: []*gpb.TypedValue{mk(i), mk(j)}}}}, tol,
 							fmt.Sprint(name, "|", key, "|", tol, "|", i, "|", j))
 					}
